@@ -1201,3 +1201,10 @@ package op
 //@   modifies nothing
 //@   ensures format-length: err == nil && charAmount >= 0 && dashInterval >= 0 ==> runeCount(result0) == charAmount + dashesBefore(charAmount, dashInterval)
 //@   ensures fail-empty: err != nil ==> result0 == ""
+
+// ---- C20: the CORS option replaces the provider's policy pointer; it never writes through it (the
+// pointer NewProvider starts from is the package-level default policy) ----
+//@ func op.WithCORSOptions$1
+//@   requires valid(o)
+//@   modifies o.corsOpts
+//@   ensures stored: o.corsOpts == opts && result == nil
